@@ -3,6 +3,8 @@ executed on the real stack while they are generated (steering reads the real loo
 and compared step by step."""
 from __future__ import annotations
 
+import re
+
 import ipaddress
 
 import someip.config as C
@@ -414,6 +416,39 @@ def canon_state(line: str) -> str:
     return f"{head} outs=[{' ; '.join(res)}] ready=[{tail}"
 
 
+_NAME_ONLY = {"count": 0}
+
+
+def _kinds_only(line: str) -> str:
+    """the same state line with every callback NAME replaced by its kind (T = task step, C = plain callback).  What a
+    callback does is compared when it runs (outputs, stores, timers after every event); its name is only a label, and a
+    private method or coroutine may be renamed without any change of behaviour."""
+    def ready(m):
+        items = [x for x in m.group(1).split(",") if x]
+        return "ready=[" + ",".join("T" if "task:" in x else "C" for x in items) + "]"
+
+    def timers(m):
+        items = [x for x in m.group(1).split(",") if x]
+        return "timers=[" + ",".join(x.split(":", 1)[0] + (":T" if "task:" in x else ":C") for x in items) + "]"
+
+    line = re.sub(r"ready=\[([^\]]*)\]", ready, line)
+    return re.sub(r"timers=\[([^\]]*)\]", timers, line)
+
+
+def same_state(a: str, b: str) -> bool:
+    """implementation state line vs model state line: equal, equal up to the order of listener-set iteration, or equal up
+    to callback names (counted in _NAME_ONLY, reported in the evidence, never an alarm by itself)"""
+    if a == b:
+        return True
+    ca, cb = canon_state(a), canon_state(b)
+    if ca == cb:
+        return True
+    if _kinds_only(ca) == _kinds_only(cb):
+        _NAME_ONLY["count"] += 1
+        return True
+    return False
+
+
 def execute(model, sc: Scenario, name="s"):
     """returns dict(events, impl_states, model_states, div, rec)"""
     impl = SDV.ImplStack(sc.tm, sc.services)
@@ -436,7 +471,7 @@ def execute(model, sc: Scenario, name="s"):
         div = -1
     else:
         for i, (a, b) in enumerate(zip(ist, outs[1:])):
-            if a != b and canon_state(a) != canon_state(b):
+            if not same_state(a, b):
                 div = i
                 break
     return {"events": evs, "impl": ist, "model": outs[1:], "div": div, "rec": sc.rec, "first": (first, outs[0])}
